@@ -157,48 +157,52 @@ inductive Framing where
   | close
   deriving Repr, BEq, DecidableEq
 
+/-- the Content-Length part of `_read_body`: `none` = HTTPInputError; else the (mutated) headers and the length -/
+def clStep (h0 : Headers) (maxBody : Nat) : Option (Headers × Option Nat) :=
+  if contains h0 sContentLength then
+    match getItem h0 sContentLength with
+    | .error _ => none
+    | .ok (v, h1) =>
+      let r : Option (Headers × Str) :=
+        if v.contains 44 then
+          match splitCommaWs false v with
+          | [] => none
+          | p :: ps => if ps.all (· == p) then some (setItem h1 sContentLength p, p) else none
+        else some (h1, v)
+      match r with
+      | none => none
+      | some (h2, v2) =>
+        match parseDec v2 with
+        | none => none
+        | some n => if n > maxBody then none else some (h2, some n)
+  else some (h0, none)
+
+/-- `is_transfer_encoding_chunked` -/
+def chStep (h : Headers) : Option (Headers × Bool) :=
+  if !contains h sTransferEncoding then some (h, false)
+  else if contains h sContentLength then none
+  else match getItem h sTransferEncoding with
+    | .error _ => none
+    | .ok (v, h1) => if v.map lowerC = sChunked then some (h1, true) else none
+
+/-- the final decision of `_read_body` for a client -/
+def framingOf (code : Nat) (chunked : Bool) (cl : Option Nat) : Option Framing :=
+  if code = 204 then
+    if chunked || !(cl = none || cl = some 0) then none else some (.fixed 0)
+  else if chunked then some .chunked
+  else match cl with
+    | some n => some (.fixed n)
+    | none => some .close
+
 /-- `_read_body` + `is_transfer_encoding_chunked` for a client: the framing decision (`none` = HTTPInputError)
     and the header object as mutated on the way (`headers["Content-Length"] = pieces[0]`, cache fills). -/
 def readBody (code : Nat) (h0 : Headers) (maxBody : Nat) : Option (Headers × Framing) :=
-  -- Content-Length
-  let clStep : Option (Headers × Option Nat) :=
-    if contains h0 sContentLength then
-      match getItem h0 sContentLength with
-      | .error _ => none
-      | .ok (v, h1) =>
-        let r : Option (Headers × Str) :=
-          if v.contains 44 then
-            match splitCommaWs false v with
-            | [] => none
-            | p :: ps => if ps.all (· == p) then some (setItem h1 sContentLength p, p) else none
-          else some (h1, v)
-        match r with
-        | none => none
-        | some (h2, v2) =>
-          match parseDec v2 with
-          | none => none
-          | some n => if n > maxBody then none else some (h2, some n)
-    else some (h0, none)
-  match clStep with
+  match clStep h0 maxBody with
   | none => none
   | some (h, cl) =>
-    -- is_transfer_encoding_chunked
-    let chStep : Option (Headers × Bool) :=
-      if !contains h sTransferEncoding then some (h, false)
-      else if contains h sContentLength then none
-      else match getItem h sTransferEncoding with
-        | .error _ => none
-        | .ok (v, h1) => if v.map lowerC = sChunked then some (h1, true) else none
-    match chStep with
+    match chStep h with
     | none => none
-    | some (h, chunked) =>
-      if code = 204 then
-        if chunked || !(cl = none || cl = some 0) then none
-        else some (h, .fixed 0)
-      else if chunked then some (h, .chunked)
-      else match cl with
-        | some n => some (h, .fixed n)
-        | none => some (h, .close)
+    | some (h', chunked) => (framingOf code chunked cl).map (fun fr => (h', fr))
 
 /-- index of the first CRLF -/
 def findCrlf : Bytes → Option Nat
@@ -258,7 +262,7 @@ def step (cfg : Cfg) : Phase → Bytes → Option (Phase × Bytes)
     | none => none
     | some e => some (onHead cfg gz (b.take e), b.drop e)
   | .fixed m rem acc, b =>
-    if b.isEmpty then none
+    if b.isEmpty || rem = 0 then none     -- (`fixed _ 0 _` is never entered: a zero-length body finishes at once)
     else
       let k := min rem b.length
       if k = rem then some (.done (.msg m (acc ++ b.take k)), b.drop k)
@@ -275,7 +279,7 @@ def step (cfg : Cfg) : Phase → Bytes → Option (Phase × Bytes)
           else some (.chunkData m (total + n) n acc, b.drop (loc + 2))
     | none => if b.length > 64 then some (.done (.fail .quiet), []) else none
   | .chunkData m total rem acc, b =>
-    if b.isEmpty then none
+    if b.isEmpty || rem = 0 then none     -- (`chunkData _ _ 0 _` is never entered: size 0 is the last chunk)
     else
       let k := min rem b.length
       if k = rem then some (.chunkCrlf m total (acc ++ b.take k), b.drop k)
